@@ -4,6 +4,7 @@
 import Lemmas.WrapText
 import Lemmas.FragEnds
 import Lemmas.EndsOk
+import Lemmas.LinebreakTable
 namespace TW.C01
 
 section
@@ -182,5 +183,17 @@ example :
                       sep := .ascii, splitter := .hyphen, alg := .firstFit, lineEnding := .lf }
     (wrap (α := Int) env (fun _ _ => []) o "ab cd ef\ngh".toList).map (·.map String.ofList) =
       some [">ab cd", " ef", " gh"] := by decide
+
+
+/-- the same with the model's own `linebreaks` on the compiled tables: for the Unicode separator no
+    contract is left, the line must only be free of hard-line-break characters -/
+-- @audit TW.C01.no_trailing_space_nobreak_ownlb
+theorem no_trailing_space_nobreak_ownlb {α : Type} [CostNum α] (env : Env) (henv : env.opps = ownOpps lbTables)
+    (mo : MinimaOracle α) (hmo : MoShape mo) (o : Opts)
+    (hb : Builtin o.splitter) (hbw : o.breakWords = false) (line : Text)
+    (hf : o.sep = .unicode → HardFree (stripAnsi line))
+    (nPrev : Nat) (ds : List LineD)
+    (h : wrapSingleLine env mo o line nPrev = some ds) : ∀ d ∈ ds, d.slice.getLast? ≠ some SP :=
+  no_trailing_space_nobreak env mo hmo o hb hbw line (fun hs => oppsNoSpace_own env henv _ (hf hs)) nPrev ds h
 
 end TW.C01
